@@ -328,6 +328,7 @@ func judgeHistory(res *core.Result, prop string, calls []callRec, resps []respRe
 	for i := range resps {
 		byKey[resps[i].key] = append(byKey[resps[i].key], i)
 	}
+	mustHit := mustHitRule(res, prop, resps, byKey, cacheOps, keysTouched)
 	failedIn := func(c0, c1 int64) bool {
 		for i := range resps {
 			if resps[i].failed && resps[i].tick > c0 && resps[i].tick < c1 {
@@ -351,6 +352,16 @@ func judgeHistory(res *core.Result, prop string, calls []callRec, resps []respRe
 				res.Fail(prop, "error-without-failure", "Resolve failed although no upstream exchange failed during the call", "call %d at %v: %v", ci, c.t1, c.err)
 			} else {
 				res.Probe("error_surfaced")
+			}
+			if sequential {
+				// a failed call, too, only asks for what its cache does not hold
+				var keys []string
+				for i := range resps {
+					if resps[i].tick > c.c0 && resps[i].tick < c.c1 && !slices.Contains(keys, resps[i].key) {
+						keys = append(keys, resps[i].key)
+					}
+				}
+				mustHit(ci, c, keys)
 			}
 			continue
 		}
@@ -438,7 +449,19 @@ func judgeHistory(res *core.Result, prop string, calls []callRec, resps []respRe
 			continue
 		}
 		// must-hit: within the TTL, with few keys, nothing goes upstream
+		var keys []string
 		for _, o := range c.obs {
+			keys = append(keys, o.key)
+		}
+		mustHit(ci, c, keys)
+	}
+}
+
+// (the closure below is set up by judgeHistory before its loop)
+func mustHitRule(res *core.Result, prop string, resps []respRec, byKey map[string][]int, cacheOps []cacheOpRec, keysTouched func(upTo int64) int) func(ci int, c *callRec, keys []string) {
+	return func(ci int, c *callRec, keys []string) {
+		for _, key := range keys {
+			o := struct{ key string }{key}
 			var last *respRec
 			for _, ri := range byKey[o.key] {
 				if resps[ri].tick < c.c0 {
